@@ -26,6 +26,21 @@ func checkC04(c *Ctx) {
 	r.NotDecided = append(r.NotDecided, "that every well-formed packet is accepted, beyond the census of explicit rejections (K8): a rejection expressed through the Lexer or a callee is judged by the schema rows only", "field values beyond the slot/field agreement of C01-K1")
 	c04Header(c)
 	c01Names(c, "C04-K5")
+	decoderKeepsResult(c, "C04-K9", c.P.Func(modPath+"/dhcpv4.FromBytes"))
+	// the values read stay what was read: the decoded packet shares no memory with the datagram (shared C08-K1)
+	if f := c.P.Func(modPath + "/dhcpv4.FromBytes"); f != nil {
+		fnd := getE3(c).retentionFindings(f, 0)
+		for _, x := range fnd {
+			if strings.HasPrefix(x.short, "UNDECIDED") {
+				c.R.Undecided("C04-K10", "dhcpv4.FromBytes: "+x.short, x.pos, x.detail)
+			} else {
+				c.R.Violation("C04-K10", "dhcpv4.FromBytes: the decoded packet aliases its input ("+x.short+")", x.pos, x.detail)
+			}
+		}
+		if len(fnd) == 0 {
+			c.R.OK("C04-K10", "dhcpv4.FromBytes: the decoded packet shares no memory with its input", c.P.pos(f.Pos()), "E3: flows(Pd/Pr(input)) = ∅", "")
+		}
+	}
 	c04Loop(c)
 	e2CheckLayouts(c, "C04-K4", func(name string, f *ssa.Function) bool { return name == "dhcpv4.FromBytes" }, 1)
 	c09Reassembly2(c, "C04-K4")
@@ -382,3 +397,41 @@ func c04Loop(c *Ctx) {
 }
 
 func gcFacts(c *Ctx, b *ssa.BasicBlock) []guardFact { return newGuardCache(c).of(b) }
+
+// decoderKeepsResult: the message a top-level decoder is building is not handed to another function before it is
+// returned (folding "overloaded" fields into the options, normalising, validating with side effects …): what the
+// caller gets is what the reads put there. The nested option-list decoders receive a field of it, not the message.
+func decoderKeepsResult(c *Ctx, rule string, f *ssa.Function) {
+	r := c.R
+	if f == nil {
+		return
+	}
+	n := 0
+	for v := range resultObjects(f) {
+		al, ok := v.(*ssa.Alloc)
+		if !ok || al.Referrers() == nil {
+			continue
+		}
+		n++
+		bad := false
+		for _, ref := range *al.Referrers() {
+			ci, ok := ref.(ssa.CallInstruction)
+			if !ok {
+				continue
+			}
+			for _, a := range ci.Common().Args {
+				if a == ssa.Value(al) {
+					bad = true
+					r.Violation(rule, shortName(f)+": the message being decoded is handed to "+calleeName(ci.Common())+" before it is returned", c.P.ipos(ref),
+						"a function that receives the half-built message can rewrite what the header and option reads stored (fields cleared, options merged or deleted): the decoded value no longer equals the wire bytes")
+				}
+			}
+		}
+		if !bad {
+			r.OK(rule, shortName(f)+": the message being decoded is only filled by the decoder itself", c.P.pos(f.Pos()), "the result object is never a call argument", "")
+		}
+	}
+	if n == 0 {
+		r.Undecided(rule, shortName(f)+": result object", c.P.pos(f.Pos()), "no allocated result object found")
+	}
+}
